@@ -71,7 +71,7 @@ class Dgelss:
 
     def __call__(self, row, col, nrhs, A, lda, b, ldb, S, rcond, rank, work, lwork, info):
         r, c = int(row[0]), int(col[0])
-        rec = dict(solver="dgelss", rows=r, cols=c, lda=int(lda[0]), ldb=int(ldb[0]), nrhs=int(nrhs[0]), A=[A[i] for i in range(r * c)], b=[b[i] for i in range(r)])
+        rec = dict(solver="dgelss", lwork=int(lwork[0]), rows=r, cols=c, lda=int(lda[0]), ldb=int(ldb[0]), nrhs=int(nrhs[0]), A=[A[i] for i in range(r * c)], b=[b[i] for i in range(r)])
         self.calls.append(rec)
         if self.mode == "numpy":
             Am = numpy.array(rec["A"], dtype=float).reshape(c, r).T  # column-major
@@ -211,6 +211,13 @@ def run_validate(cfg):
 # ------------------------------------------------------------------ symbolic check of the criteria
 
 
+def _grid_weight(i, wseed):
+    """non-uniform rational weights; grid 9 has a ZERO weight on row 1 (masked / out-of-bag rows)"""
+    if wseed == 9 and i == 1:
+        return Fraction(0)
+    return Fraction((i * 2 + wseed) % 3 + 1, 2)
+
+
 def run_crit(cfg):
     kind, n, order, wmode = cfg["kind_c"], cfg["n"], cfg["order"], cfg["wmode"]
     s0, p0, e0 = cfg["triple"]
@@ -224,7 +231,7 @@ def run_crit(cfg):
             w = None
             wv = [1] * n
         elif wmode == "grid":
-            wv = [Fraction((i * 2 + cfg.get("wseed", 1)) % 3 + 1, 2) for i in range(n)]
+            wv = [_grid_weight(i, cfg.get("wseed", 1)) for i in range(n)]
             w = sx.sarr(wv)
         else:
             w = e.reals("w", n)
@@ -286,6 +293,10 @@ def run_crit(cfg):
                 # the node's design [X, 1] is arbitrary here -- duplicated rows, a feature constant inside the node --
                 # so the fit must come from a driver whose contract covers rank-deficient matrices
                 e.prove(rec["solver"] in RANK_REVEALING, "linear/least-squares-driver-covers-rank-deficient-designs", detail=rec["solver"])
+                if rec["solver"] == "dgelss":
+                    # LAPACK: LWORK >= 3*min(M,N) + max(2*min(M,N), max(M,N), NRHS), else the call is refused (info=-12)
+                    mn, mx = min(rec["rows"], rec["cols"]), max(rec["rows"], rec["cols"])
+                    e.prove(rec["lwork"] >= 3 * mn + max(2 * mn, mx, rec["nrhs"]), "linear/dgelss-workspace-meets-the-documented-minimum", detail=(rec["lwork"], rec["rows"], rec["cols"]))
                 for r, i in enumerate(ii):
                     for j in range(d + 1):
                         e.prove_eq(rec["A"][j * len(ii) + r], (X[i, j] if j < d else 1) * wv[i], label + "/dgelss-gets-exactly-the-node-rows")
@@ -319,7 +330,9 @@ def run_crit(cfg):
             ip = obs["impurity"]
             imp = L._test_criterion_impurity_improvement(crit, ip, il, ir)
             # N_t/N * (parent - N_R/N_t*right - N_L/N_t*left), cross-multiplied by N*N_t
-            e.prove_eq(imp * wsum, W * ip - Wr * ir - Wl * il, f"{kind}/impurity_improvement")
+            # (a node whose rows all have weight zero has no N_t to divide by: scikit-learn never evaluates one)
+            if sx.is_sym(W) or W != 0:
+                e.prove_eq(imp * wsum, W * ip - Wr * ir - Wl * il, f"{kind}/impurity_improvement")
             # moved by update/reset == initialised fresh (stale buffers)
             if cfg.get("moves"):
                 c2 = make(L, getattr(L, CLS[kind]), kind, n, X)
@@ -383,10 +396,34 @@ def replay_rankdef():
     return False, "rank-deficient leaves: predictions are the least-squares fitted values"
 
 
+def replay_small_leaves():
+    """real PiecewiseTreeRegressor(criterion='mselin') with leaves of 2..2(d+1)-1 rows: predictions == per-leaf OLS"""
+    ptr = loader.load("mlmodel.piecewise_tree_regression", with_ext=True)
+    rng = numpy.random.RandomState(2)
+    for d, msl in ((1, 2), (1, 3), (3, 5)):
+        X = rng.randn(24, d)
+        y = X.sum(axis=1) * 2 + rng.randn(24)
+        try:
+            est = ptr.PiecewiseTreeRegressor(criterion="mselin", min_samples_leaf=msl, max_depth=3, random_state=0).fit(X, y)
+            pred, leaves = est.predict(X), est.apply(X)
+        except Exception as ex:
+            return True, dict(d=d, min_samples_leaf=msl, raised=f"{type(ex).__name__}: {str(ex)[:160]}")
+        for l in numpy.unique(leaves):
+            rows = leaves == l
+            A = numpy.hstack([X[rows], numpy.ones((rows.sum(), 1))])
+            fitted = A @ numpy.linalg.lstsq(A, y[rows], rcond=None)[0]
+            err = float(numpy.abs(fitted - pred[rows]).max())
+            if not err <= 1e-6 * max(1.0, float(numpy.abs(y).max())):
+                return True, dict(features=d, min_samples_leaf=msl, leaf=int(l), rows=int(rows.sum()), max_abs_error=err)
+    return False, "small leaves: predictions are the least-squares fitted values"
+
+
 def replay(cfg, inputs, label):
     """compiled extension, concrete floats, independent NumPy oracle"""
     if "covers-rank-deficient-designs" in label or cfg["kind"] == "contract":
         return replay_rankdef()
+    if "dgelss-workspace" in label:
+        return replay_small_leaves()
     if cfg["kind"] == "pyside":
         ok, obs = harness.replay_scenario(run_py(cfg), inputs, label)
         return (ok, obs) if ok else replay_py(cfg, inputs, label)
@@ -401,7 +438,7 @@ def replay(cfg, inputs, label):
         w = None
         wv = numpy.ones(n)
     elif cfg["wmode"] == "grid":
-        wv = numpy.array([float(Fraction((i * 2 + cfg.get("wseed", 1)) % 3 + 1, 2)) for i in range(n)])
+        wv = numpy.array([float(_grid_weight(i, cfg.get("wseed", 1))) for i in range(n)])
         w = wv.copy()
     else:
         wv = numpy.array([float(inputs.get(f"w_{i}", 1 + i)) for i in range(n)])
@@ -434,12 +471,13 @@ def replay(cfg, inputs, label):
     if kind != "linear":
         # improvement = N_t/N * (parent - N_R/N_t*right - N_L/N_t*left), N = total WEIGHT; proxy = -(N_R*right + N_L*left)
         Wn, Wl, Wr = float(wv[idx].sum()), float(wv[[order[k] for k in range(s0, p0)]].sum()), float(wv[[order[k] for k in range(p0, e0)]].sum())
-        want["improvement"] = (Wn * want["impurity"] - Wr * want["right"] - Wl * want["left"]) / float(wv.sum())
-        got["improvement"] = float(common._test_criterion_impurity_improvement(crit, obs["impurity"], obs["children"][0], obs["children"][1]))
+        if Wn > 0:
+            want["improvement"] = (Wn * want["impurity"] - Wr * want["right"] - Wl * want["left"]) / float(wv.sum())
+            got["improvement"] = float(common._test_criterion_impurity_improvement(crit, obs["impurity"], obs["children"][0], obs["children"][1]))
         if p0 not in (s0, e0):
             want["proxy"] = -(Wr * want["right"]) - (Wl * want["left"])
             got["proxy"] = float(obs["proxy"])
-    bad = {k: (got[k], want[k]) for k in want if abs(got[k] - want[k]) > 1e-7 * max(1, abs(want[k]))}
+    bad = {k: (got[k], want[k]) for k in want if not abs(got[k] - want[k]) <= 1e-7 * max(1, abs(want[k]))}  # a NaN is a difference
     if bad:
         return True, dict(criterion=CLS[kind], y=y.tolist(), w=None if w is None else w.tolist(), sample_indices=order, triple=[s0, p0, e0], got_vs_expected={k: list(v) for k, v in bad.items()})
     return False, "compiled criterion agrees with the NumPy oracle"
@@ -521,6 +559,32 @@ def run_py(cfg):
                 for i in range(2):
                     b = seen[qleaf[i]][3]
                     C.eq(pred[i], Xq[i, 0] * b[0] + b[1], "predict(row)=[row,1].beta(leaf(row))")
+                if cfg.get("refit_layout") and nleaves == 3:
+                    # history: the same instance fitted again; the new tree has as many leaves under OTHER node ids
+                    # (mirror image: leaves 2, 3, 4 instead of 1, 3, 4): the leaf regressions follow the new tree
+                    cl2, cr2, leaves2, paths2 = [1, 3, -1, -1, -1], [2, 4, -1, -1, -1], [2, 3, 4], {2: [0, 2], 3: [0, 1, 3], 4: [0, 1, 4]}
+                    est.tree_ = types.SimpleNamespace(children_left=numpy.array(cl2), children_right=numpy.array(cr2), n_leaves=3)
+
+                    def decision_path2(Xa):
+                        which = leaf_of if Xa is X else qleaf
+                        m2 = numpy.zeros((len(which), 5), dtype=numpy.int64)
+                        for i, l in enumerate(which):
+                            m2[i, paths2[leaves2[l]]] = 1
+                        return scipy.sparse.csr_matrix(m2)
+
+                    est.decision_path = decision_path2
+                    est.apply = lambda Xa, check_input=True: numpy.array([leaves2[l] for l in (leaf_of if Xa is X else qleaf)], dtype=numpy.int64)
+                    del seen[:]
+                    est._fit_reglin(X, y, None)
+                    C.true(list(est.leaves_index_) == leaves2, "refit-with-another-tree-layout/leaves_index_-describes-the-new-tree", detail=list(est.leaves_index_))
+                    C.true(len(seen) == nleaves, "refit-with-another-tree-layout/one-regression-per-leaf")
+                    for l, (Xl, yl, sw, beta) in enumerate(seen[:nleaves]):
+                        rows = rows_of[l]
+                        ok = len(Xl) == len(rows)
+                        C.true(ok, "refit-with-another-tree-layout/leaf-regression-gets-exactly-its-rows", detail=(l, len(Xl), rows))
+                        if ok:
+                            for r, i in enumerate(rows):
+                                C.eq(Xl[r, 0], X[i, 0], "refit-with-another-tree-layout/leaf-regression-gets-exactly-its-rows")
                 # history: the same instance switched to criterion='simple' and refitted predicts the leaf mean
                 # (the parent's predict), not the stale per-leaf regressions
                 est.set_params(criterion="simple")
@@ -609,8 +673,10 @@ def configs(tier):
             for order in orders:
                 for tr in _triples(n):
                     span = tr[2] - tr[0]
-                    for wmode, wseed in (("unit", 0), ("grid", 1), ("grid", 2), ("symbolic", 0)):
+                    for wmode, wseed in (("unit", 0), ("grid", 1), ("grid", 2), ("grid", 9), ("symbolic", 0)):
                         if tier == "quick" and wmode == "grid" and wseed == 2:
+                            continue
+                        if wseed == 9 and n < 2:
                             continue
                         out.append(dict(kind="crit", kind_c=kind, n=n, order=order, triple=list(tr), wmode=wmode, wseed=wseed, moves=[tr[0] + 1, tr[2]] if wmode != "symbolic" else None))
     for n in (3, 4) if tier == "quick" else (3, 4, 5):
@@ -621,6 +687,7 @@ def configs(tier):
         for tr in _triples(4):
             out.append(dict(kind="crit", kind_c="linear", n=4, d=2, order=[2, 0, 3, 1], triple=list(tr), wmode="unit"))
     out.append(dict(kind="pyside", n=3 if tier == "quick" else 4, leaves=2))
+    out.append(dict(kind="pyside", n=3, leaves=3, refit_layout=True))
     return out
 
 
